@@ -20,6 +20,10 @@ CHECKS = {
    technique="exhaustive enumeration of programmatic ast trees: every chain of <= 3 (constructor, operand position) contexts x 9 leaves x 3 placements x 3 printers, print -> re-parse -> shape comparison -> re-print fixed point",
    text="Every parent/child/grand-child operator combination and operand side is built as a real ast tree without grouping nodes, printed by the real printers, re-parsed by the real parser and compared with the tree it came from, then printed again and compared byte for byte. Parser-produced trees never reach the parenthesisation branches; this enumeration reaches every one of them.",
    note="trusted: harness tree -> ast builder (props/build.go), shape mapping; depth 3; xjs parser as reader (its conformance is C02's subject)"),
+ "C13": dict(cat="model_checking", sec="4 C13",
+   technique="mode-product exploration: every program/layout of the bounded universes parsed in all 4 mode combinations, cross-mode tree-dump comparison + derived-input oracles (fused statements, open blocks, semicolon insertion before line-initial infix brackets)",
+   text="All token sequences up to the bound and all statement-family programs in all layouts with <= k deviations are run through the four mode combinations of the real parser; the product is checked against the documented differences only (tolerant == strict on accepted programs incl. positions; tolerant additionally accepts fused statements / open blocks with the intact tree; smart == default except that a line-initial ( or [ after an expression end starts a statement). A flag consulted anywhere else shows up as a cross-mode difference on some enumerated program.",
+   note="trusted: harness unparser roles (checked against goja by C02), message keywords for the two documented tolerant error kinds"),
  "C09": dict(cat="model_checking", sec="4 C09",
    technique="explicit-state exploration: all builder call histories <= depth 5/6 (stateless) + BFS with abstract-state dedup to depth 7/9, real SourceMapper vs list model, independent VLQ decoder",
    text="Every operation history up to the bound over a 25-call alphabet is executed on the real builder in lock-step with a reference model and the emitted mappings are decoded by an independent Source Map v3 decoder; every VLQ delta in [-2^20,2^20] is encoded through the public API and decoded. Exhaustive within the bound, which is where delta-reset, name carry-over and continuation-bit bugs live.",
